@@ -221,6 +221,60 @@ theorem cmapProbes_eq (dirs : List Bytes) (name : Bytes) :
   rw [cmapGuard_eq]
   cases plainFile (cmapFilename name) <;> simp
 
+/-! ### `normpath` yields canonical components (round 6) -/
+
+/-- A canonical component: not empty, not `.`, no separator; `..` only in relative paths. -/
+def CanonComp (abs : Bool) (c : Bytes) : Prop :=
+  c ≠ [] ∧ c ≠ [46] ∧ (¬ 47 ∈ c) ∧ (abs = true → c ≠ [46, 46])
+
+theorem normStep_canon (abs : Bool) (stack : List Bytes) (c : Bytes) (hc : ¬ 47 ∈ c)
+    (hs : ∀ x ∈ stack, CanonComp abs x) : ∀ x ∈ normStep abs stack c, CanonComp abs x := by
+  unfold normStep
+  split
+  · exact hs
+  · rename_i h1
+    split
+    · rename_i h2
+      subst h2
+      match stack, hs with
+      | [], _ =>
+        by_cases ha : abs = true
+        · simp [ha]
+        · simp only [ha, Bool.false_eq_true, if_false, List.mem_singleton]
+          rintro x rfl
+          exact ⟨by decide, by decide, by decide, fun h => absurd h (by decide)⟩
+      | t :: rest, hs =>
+        simp only
+        split
+        · rename_i ht
+          intro x hx
+          rcases List.mem_cons.mp hx with rfl | hx
+          · refine ⟨by decide, by decide, by decide, fun ha => ?_⟩
+            exact absurd ht ((hs t (by simp)).2.2.2 ha)
+          · exact hs x hx
+        · intro x hx
+          exact hs x (by simp [hx])
+    · rename_i h2
+      intro x hx
+      rcases List.mem_cons.mp hx with rfl | hx
+      · exact ⟨fun h => h1 (Or.inl h), fun h => h1 (Or.inr h), hc, fun _ => h2⟩
+      · exact hs x hx
+
+theorem foldl_normStep_canon (abs : Bool) : ∀ (cs : List Bytes) (stack : List Bytes), (∀ c ∈ cs, ¬ 47 ∈ c) →
+    (∀ x ∈ stack, CanonComp abs x) → ∀ x ∈ cs.foldl (normStep abs) stack, CanonComp abs x
+  | [], stack, _, hs => by simpa using hs
+  | c :: cs, stack, hcs, hs => by
+    simp only [List.foldl_cons]
+    exact foldl_normStep_canon abs cs _ (fun c' hc' => hcs c' (by simp [hc']))
+      (normStep_canon abs stack c (hcs c (by simp)) hs)
+
+/-- Every component of a normalised path is canonical — for every byte string `p`. -/
+theorem norm_canon (p : Bytes) : ∀ c ∈ (norm p).2, CanonComp (isAbs p) c := by
+  intro c hc
+  simp only [norm, List.mem_reverse] at hc
+  exact foldl_normStep_canon (isAbs p) (splitSlash p) [] (fun c' hc' => splitSlash_no_slash p c' hc')
+    (by simp) c hc
+
 /-- Joining a non-absolute name onto a fixed directory is injective. -/
 theorem join_right_injective (d a b : Bytes) (ha : isAbs a = false) (hb : isAbs b = false)
     (h : join d a = join d b) : a = b := by
